@@ -19,9 +19,9 @@ from .c17 import EPOCH, ONE_MS, DAY_MS, T_MIN, T_MAX, ms_of, us_of, dt_of, o_flo
 
 SCOPE = ("TimeScale().domain([a, b]).ticks(m), every m in 2..50 and ticks() (m=10), naive ms-resolution domains inside 1900-01-01..2200-12-31, "
          "orientation alternating with m (both for ticks()): (A) month-end crossings: starts on the 28th 13:30 and on the last day 23:59:59.999 of "
-         "every month of 2024 and February, December 2023 (quick; thorough: every month, adds 27th 00:00 / 30th and years 1900, 1999, 2000, 2100, 2200) x spans 1 d, 2 d, 3 d 7 h, 9 d, 45 d "
-         "(thorough adds 6 d, 20 d, 100 d); (B) span ladder 1 ms .. 250 years (57 spans incl. 1..11 ms, 49/50/51 ms, 999/1000/1001 ms, "
-         "1 day +-1 ms, 365/366 days, 49/50/51 years) from 3 anchor instants + 5 more with m in {2,3,4,5,7,10,17,24,33,50} (quick) / 24 anchors, every m (thorough), incl. leap days, year ends, Saturday "
+         "every month of 2024 and February, December 2023 (quick; thorough: every month, adds starts on the 30th, years 1900, 2000, 2100, span 6 d; with a budget >= 200 s also the 27th, "
+         "1999, 2200, spans 20 d, 100 d) x spans 1 d, 2 d, 3 d 7 h, 9 d, 45 d; (B) span ladder 1 ms .. 250 years (57 spans incl. 1..11 ms, 49/50/51 ms, 999/1000/1001 ms, "
+         "1 day +-1 ms, 365/366 days, 49/50/51 years) from 3 anchor instants + 5 more with m in {2,3,4,5,7,10,17,24,33,50} (quick) / 14 or (budget >= 200 s) 24 anchors, every m (thorough), incl. leap days, year ends, Saturday "
          "23:00, 1969-12-31 23:59:59.999; then seeded random domains (log-uniform span, random m or default, random orientation)")
 
 US = 1000          # microseconds per ms
@@ -134,19 +134,22 @@ ANCHORS = [
 ]
 
 
-def month_end_domains(quick):
-    years = [2024, 2023] if quick else [1900, 1999, 2000, 2023, 2024, 2100, 2200]
+def month_end_domains(level):
+    """level 0 quick, 1 thorough with a budget under 200 s, 2 thorough"""
+    years = [[2024, 2023], [2024, 2023, 1900, 2000, 2100], [2024, 2023, 1900, 2000, 2100, 1999, 2200]][level]
     spans = [D, 2 * D, 3 * D + timedelta(hours=7), 9 * D, 45 * D]
-    if not quick:
-        spans += [6 * D, 20 * D, 100 * D]
+    if level >= 1:
+        spans += [6 * D]
+    if level >= 2:
+        spans += [20 * D, 100 * D]
     for y in years:
-        for mo in ((2, 12) if (quick and y == 2023) else range(1, 13)):
+        for mo in ((2, 12) if (level == 0 and y == 2023) else range(1, 13)):
             last = calendar.monthrange(y, mo)[1]
             starts = [datetime(y, mo, 28, 13, 30), datetime(y, mo, last, 23, 59, 59, 999000)]
-            if not quick:
+            if level >= 1 and last >= 30:
+                starts.append(datetime(y, mo, 30, 0, 0, 0, 1000))
+            if level >= 2:
                 starts.append(datetime(y, mo, 27))
-                if last >= 30:
-                    starts.append(datetime(y, mo, 30, 0, 0, 0, 1000))
             for s in starts:
                 for sp in spans:
                     e = s + sp
@@ -155,15 +158,15 @@ def month_end_domains(quick):
                     yield s, e
 
 
-def ladder_domains(quick):
-    for i, a in enumerate(ANCHORS[:8] if quick else ANCHORS):
+def ladder_domains(level):
+    for i, a in enumerate(ANCHORS[:[8, 14, 24][level]]):
         for sp in SPANS_MS:
             b = a + timedelta(milliseconds=sp)
             if b > T_MAX:
                 b = a - timedelta(milliseconds=sp)
             if b < T_MIN:
                 continue
-            yield min(a, b), max(a, b), (M_SUBSET if (quick and i >= 3) else None)
+            yield min(a, b), max(a, b), (M_SUBSET if (level == 0 and i >= 3) else None)
 
 
 def random_domain(rng):
@@ -194,9 +197,10 @@ def random_domain(rng):
 
 def explore(run):
     quick = run.tier == "quick"
+    level = 0 if quick else (2 if run.budget >= 200 else 1)
     cut = False
     n = 0
-    for a, b in month_end_domains(quick):
+    for a, b in month_end_domains(level):
         all_counts(run, a, b)
         n += 1
         if n % 16 == 0 and run.left() < run.budget * 0.4:
@@ -207,7 +211,7 @@ def explore(run):
         run.exhaustive("(A) %d month-end-crossing domains x m in 2..50 and default" % n)
     cut = False
     n = 0
-    for a, b, ms in ladder_domains(quick):
+    for a, b, ms in ladder_domains(level):
         all_counts(run, a, b, ms)
         n += 1
         if n % 16 == 0 and run.left() < run.budget * 0.2:
